@@ -585,6 +585,20 @@ def run(ctx):
         ctx.ob('C10.whole-query-gate', cons, ok, msg, file=file_, line=line, witness='select * from int1.a join int1.b on a.id = b.id where a.x in (select y from int2.c)')
     ctx.setcount('gate_rows', ng)
     ctx.floor('gate_rows', 600)
+    # C4. table discovery, the routing of nested selects and the qualifier rewrite all run on query_traversal: every child-carrying field is visited and a
+    # replacement lands in the field the printer / the steps read (C13's walker analysis, re-run)
+    from . import C13
+    from ..core import Ctx as _Ctx
+    sub13 = _Ctx('C13', ctx.src, ctx.tier)
+    C13.run(sub13)
+    rel13 = ('C13.field-unvisited', 'C13.visit-once', 'C13.flags', 'C13.class-dispatched', 'C13.replace-exact', 'C13.callback-first', 'C13.callback-once',
+             'C13.visit-unconditional', 'C13.renderer-reads-visited')
+    ctx.setcount('walker_obligations', sum(v[0] for k, v in sub13.rules.items() if k in rel13))
+    ctx.floor('walker_obligations', 100)
+    ctx.ob('C10.walker', 'all', True, '')
+    for f_ in [x for x in sub13.findings if x.rule in rel13]:
+        ctx.ob('C10.walker', f'{f_.rule}:{f_.construct}', False, f'table discovery and the routing of nested selects rely on query_traversal: {f_.msg}', file=f_.file, line=f_.line,
+               witness=f_.witness)
     # D. qualifier strip: truth table of prepare_integration_select ------------------------------------------------------------------------
     table = rewrite_table(ctx)
     ctx.setcount('rewrite_rows', len(table))
